@@ -11,6 +11,7 @@ import UnifexModel.Driver.Entries.Bulk
 import UnifexModel.Driver.Entries.AnyObj
 import UnifexModel.Driver.Entries.Ctx
 import UnifexModel.Driver.Entries.SpawnFuture
+import UnifexModel.Driver.Entries.Coro
 
 namespace Unifex.Driver
 
@@ -27,6 +28,7 @@ def table : List ModelEntries :=
   , Entries.anyobjEntries
   , Entries.ctxEntries
   , Entries.spawnfuture
+  , Entries.coroEntries
   ]
 
 def lookup (m c : String) : Option Entry :=
